@@ -5,14 +5,20 @@ recording server impls, the REAL async client connected to the generated server'
 transport, against the extracted Coq model (coq/Model/MacroApi.v) run on the API descriptions that
 tools/translators/macroapi.py derives from the same trait text.  The direct oracle below is a Python reference of the
 property (names, argument passing, result passing) that knows nothing of the Coq model."""
-import json
+import itertools, json, os
 import vlib
 from translators import macroapi as T
+
+
+def impl_bin():
+    """the implementation binary; VERIF_MACROAPI_BIN overrides it (used to run the check against a scratch build)"""
+    return os.environ.get("VERIF_MACROAPI_BIN") or vlib.rust_bin("macroapi")
 
 TRANSLATORS = ["error_codes", "macroapi"]
 MODELS = ["macroapi"]
 BINS = {"release": ["macroapi"]}
-RULE = ("case = one call on one of the compiled APIs (5 traits, 25 methods/subscriptions: 0..5 parameters, Option tails of 1 and 2, "
+RULE = ("case = one call on one of the compiled APIs (5 traits, 29 methods/subscriptions: 0..5 parameters, Option tails of 1, 2 and 3 "
+        "(positional methods and a positional subscription; every None/Some pattern of the tail is driven through the generated stub), "
         "an Option in the middle, all-Option, param_kind array/map, renamed arguments, namespace with default/custom/empty separator, "
         "aliases, sync/async/blocking, async and sync subscriptions with parameters and typed items, a method without return type, "
         "two labelled negative examples).  `stub` cases call the generated client method with typed argument values (integer "
@@ -22,10 +28,10 @@ RULE = ("case = one call on one of the compiled APIs (5 traits, 25 methods/subsc
         "trailing optionals given / null / omitted, absent params, extra elements, whitespace, by-name with any of the three keys "
         "per parameter in any order with unknown members, duplicates, missing and ill-typed arguments, every alias and near-miss "
         "method names, subscriptions through aliases with unsubscribe through every unsubscribe name.  Implementation and extracted "
-        "model print: method and params text of the frame the stub sent (compared byte for byte), identity of the trait method that "
-        "ran, the argument tuple it received, what the client got.  Direct oracle (Python reference, independent of Coq): the wire "
-        "name is the namespaced name, the params are the arguments in declaration order (array) or under the renamed names (map), "
-        "the intended handler ran and received values equal to those sent (None for null/omitted optionals), the client got exactly "
+        "model print: method and params text of the frame the stub sent (compared byte for byte: a correspondence `diff`, key "
+        "macroapi-wire-differs, never an oracle failure), identity of the trait method that ran, the argument tuple it received, what "
+        "the client got.  Direct oracle (Python reference, independent of Coq; judges only what the property says): "
+        "the intended handler ran and RECEIVED values equal to those the stub was called with (None for null/omitted optionals), the client got exactly "
         "the value computed from them / the dictated error object field by field / the items of the subscription, and nothing ran on "
         "-32601/-32602.  distinct non-trivial = distinct result lines in which a trait method ran")
 TRUSTED = [
@@ -324,6 +330,10 @@ RET = {
     "0.m9": lambda a: a[0],
     "0.m10": lambda a: None,
     "0.m11": lambda a: None,
+    "0.m12": lambda a: list(a),
+    "0.m13": lambda a: list(a),
+    "0.m14": lambda a: list(a),
+    "1.s2": lambda a: [[(a[0] + i) % 2**32, a[1], a[2], a[3]] for i in range(1 + a[0] % 3)],
     "1.m0": lambda a: list(a),
     "1.m1": lambda a: [a[1], a[0]],
     "1.m2": lambda a: list(a),
@@ -502,13 +512,26 @@ def gen_cases(ctx, ref):
             wire_name = rpc_identifier(a, it["name"])
             uname = rpc_identifier(a, unsub_name(it)) if kind == "s" else None
             # ---------------- stub cases
-            for _ in range(n_stub):
+            ntail = 0
+            while ntail < len(params) and params[len(params) - 1 - ntail]["opt"]:
+                ntail += 1
+            # every None/Some pattern of the trailing run of Option parameters, several times each, then random tuples
+            plans = []
+            if ntail >= 1 and hid not in (NEG_OPTOPT, NEG_COLLIDE, BOUNDARY_NOTE):
+                for pat in itertools.product([False, True], repeat=ntail):
+                    plans += [pat] * (6 if ntail >= 2 else 2)
+            plans += [None] * n_stub
+            for plan in plans:
                 outcome, oc = gen_outcome(rng)
                 if hid == NEG_OPTOPT:
                     v = rng.choice(["none", "some-none", 0, 255, 7])
                     mk("stub", ai, "m%d" % idx, hx(dumps([v])), outcome, "-", "-", "neg-optopt", {"neg": "optopt", "sent": v, "oc": oc}, {})
                     continue
                 args = [gen_value(rng, ("opt", q["ty"]) if q["opt"] else q["ty"], types) for q in params]
+                if plan is not None:
+                    for off, some in enumerate(plan):
+                        i = len(params) - ntail + off
+                        args[i] = gen_value(rng, params[i]["ty"], types) if some else None
                 if not params:
                     wparams = None
                 elif pk == "array":
@@ -525,7 +548,8 @@ def gen_cases(ctx, ref):
                     mk("stub", ai, "m%d" % idx, hx(dumps(args, rng)), outcome, "-", "-", "neg-collide", e, {})
                     continue
                 e = expect_call(ai, kind, idx, args, oc, wire, uname, True)
-                mk("stub", ai, "%s%d" % (kind, idx), hx(dumps(args, rng)), outcome, "-", ret_of(e), "stub-" + pk, e, {})
+                tag = "stub-" + pk if plan is None else "stub-tail-" + "".join("S" if x else "N" for x in plan)
+                mk("stub", ai, "%s%d" % (kind, idx), hx(dumps(args, rng)), outcome, "-", ret_of(e), tag, e, {})
             if hid == NEG_OPTOPT:
                 continue
             # ---------------- raw cases
@@ -747,8 +771,43 @@ def canon(r):
     return (r["w"], r["h"], json.dumps(r["a"], sort_keys=True), json.dumps(c, sort_keys=True))
 
 
+def wire_check(expect, r):
+    """model correspondence, NOT the property: the frame the stub sent is the declared name with exactly the arguments in
+    declaration order (array) / under the renamed names (map).  Another encoding that delivers the same tuple (e.g.
+    leaving trailing None's out) is no violation of C17: a mismatch here is reported as kind `diff`."""
+    e = json.loads(json.dumps(expect))
+    bad = []
+    if r is None or e.get("neg") == "optopt" or e.get("wire") is None:
+        return bad
+    if True:
+        name, wp = e["wire"]
+        if r["w"] is None or r["w"][0] != name:
+            bad.append(("macroapi-wire-differs", "stub sent method %r, declared name is %r" % (r["w"] and r["w"][0], name)))
+        else:
+            got = r["w"][1]
+            if wp is None:
+                if got is not None:
+                    bad.append(("macroapi-wire-differs", "no parameters declared but params %r sent" % got))
+            else:
+                try:
+                    gv = parse_pairs(got)
+                except Exception:
+                    gv = "unparsable"
+                if isinstance(gv, list):
+                    gvp = {"arr": [plain(x) for x in gv]}
+                elif isinstance(gv, tuple):
+                    gvp = {"obj": [[k, plain(v)] for k, v in gv[1]]}
+                else:
+                    gvp = gv
+                if not (isinstance(gvp, dict) and list(gvp) == list(wp) and same(list(gvp.values())[0], list(wp.values())[0])):
+                    bad.append(("macroapi-wire-differs", "stub sent params %r, arguments are %r" % (got, wp)))
+    return bad
+
+
 def check(expect, r):
-    """the direct oracle: list of (key, detail) violations of the property in the implementation's result r.
+    """the direct oracle: list of (key, detail) violations of the property in the implementation's result r: the intended
+    trait method ran, it RECEIVED the tuple the stub was called with / the request presents, and the client got exactly what
+    the method returned.  The text on the wire is not judged here (wire_check).
     `expect` is what the Python reference demands for the case (JSON-friendly, also stored in replay files)"""
     e = json.loads(json.dumps(expect))
     bad = []
@@ -766,29 +825,6 @@ def check(expect, r):
         if r["h"] is not None or rc[:2] != ["err", -32602]:
             bad.append(("negative-example-changed", "collide(a_b, aB) through the stub no longer fails: %r" % (rc,)))
         return bad
-    # the frame the stub sent
-    if e["wire"] is not None:
-        name, wp = e["wire"]
-        if r["w"] is None or r["w"][0] != name:
-            bad.append(("wire-name", "stub sent method %r, declared name is %r" % (r["w"] and r["w"][0], name)))
-        else:
-            got = r["w"][1]
-            if wp is None:
-                if got is not None:
-                    bad.append(("wire-params", "no parameters declared but params %r sent" % got))
-            else:
-                try:
-                    gv = parse_pairs(got)
-                except Exception:
-                    gv = "unparsable"
-                if isinstance(gv, list):
-                    gvp = {"arr": [plain(x) for x in gv]}
-                elif isinstance(gv, tuple):
-                    gvp = {"obj": [[k, plain(v)] for k, v in gv[1]]}
-                else:
-                    gvp = gv
-                if not (isinstance(gvp, dict) and list(gvp) == list(wp) and same(list(gvp.values())[0], list(wp.values())[0])):
-                    bad.append(("wire-params", "stub sent params %r, arguments are %r" % (got, wp)))
     # the handler and what it received
     if r["h"] != e["h"]:
         bad.append(("handler", "handler %r ran, expected %r" % (r["h"], e["h"])))
@@ -834,7 +870,7 @@ def load():
 def run(ctx):
     ctx.engines = ["macroapi (harness/src/bin/macroapi.rs: compiled #[rpc] family + real async client over an in-process transport, "
                    "vs modelrun/macroapi_driver.ml over coq/Model/MacroApi.v on coq/Gen/MacroApiGen.v)"]
-    impl, model = vlib.rust_bin("macroapi"), vlib.model_bin("macroapi")
+    impl, model = impl_bin(), vlib.model_bin("macroapi")
     try:
         ref = load()
     except T.ParseError as e:
@@ -861,7 +897,14 @@ def run(ctx):
         if r != want_h:
             ctx.fail("diff", "heck-transcriptions-differ", {"name": n}, {"model": r, "python": want_h})
     ctx.count("heck-names", len(names))
-    # (1) calls, in rounds of the quick size (bounds the memory of the thorough tier)
+    # (1) calls, in rounds of the quick size (bounds the memory of the thorough tier).  Oracle failures (the property) are
+    # reported as they are found, correspondence diffs are kept back and reported after them (at most 300 of each key).
+    diffs, ndiff = [], {}
+
+    def diff(key, desc, detail):
+        ndiff[key] = ndiff.get(key, 0) + 1
+        if ndiff[key] <= 300:
+            diffs.append((key, desc, detail))
     for _ in range(ctx.scale(1, 28)):
         cases = gen_cases(ctx, ref)
         lines = [c.line() for c in cases]
@@ -873,18 +916,28 @@ def run(ctx):
             desc = {"line": c.line(), "tag": c.tag, "api": ref.apis[c.api]["trait"], "target": c.target if c.mode == "stub" else c.info.get("name"),
                     "params": c.info.get("params")}
             viol = check(c.expect, ra)
-            if viol:
+            wviol = wire_check(c.expect, ra)
+            if viol or wviol:
                 desc["expect"] = c.expect
             for key, detail in viol:
                 ctx.fail("oracle", key, desc, {"detail": detail, "impl": a})
+            for key, detail in wviol:
+                diff(key, desc, {"detail": detail, "impl": a, "model": b})
             if c.expect.get("neg") != "optopt":
-                if canon(ra) != canon(rb) or ra is None:
-                    ctx.fail("diff", "macroapi-model-differs:" + c.tag, desc, {"impl": a, "model": b})
+                ca, cb = canon(ra), canon(rb)
+                if ra is None or rb is None or ca[1:] != cb[1:]:
+                    diff("macroapi-model-differs:" + c.tag, desc, {"impl": a, "model": b})
+                elif ca[0] != cb[0] and not wviol:
+                    diff("macroapi-wire-differs", desc, {"impl": a, "model": b})
             ctx.record(desc, a, nontrivial=bool(ra and ra["h"]))
             if a.startswith(("PANIC", "CRASH", "?")):
                 ctx.fail("oracle", "harness-crash", desc, a)
-        if len(ctx.failures) > 2000:
+        if len(ctx.failures) + len(diffs) > 2000:
             break
+    for key, desc, detail in diffs:
+        ctx.fail("diff", key, desc, detail)
+    if ndiff:
+        ctx.extra["diff_counts"] = ndiff
 
 
 def replay(payload):
@@ -892,7 +945,7 @@ def replay(payload):
     print(json.dumps(payload, indent=1)[:3000])
     if isinstance(case, dict) and "line" in case:
         res = {}
-        for name, cmd in (("impl", vlib.rust_bin("macroapi")), ("model", vlib.model_bin("macroapi"))):
+        for name, cmd in (("impl", impl_bin()), ("model", vlib.model_bin("macroapi"))):
             rc, out = vlib.sh([cmd], input=case["line"] + "\n")
             last = out.strip().split("\n")[-1] if out.strip() else ""
             res[name] = parse_line(last)
@@ -900,6 +953,8 @@ def replay(payload):
             print("   ", res[name])
         print("model and implementation agree:", canon(res["impl"]) == canon(res["model"]) and res["impl"] is not None)
         if "expect" in case:
+            wv = wire_check(case["expect"], res["impl"])
+            print("wire text as the model/description predict (correspondence, not the property):", "yes" if not wv else "NO " + "; ".join(v[1] for v in wv))
             viol = check(case["expect"], res["impl"])
             print("direct oracle on the implementation's result:", "holds" if not viol else "VIOLATED " + "; ".join("%s: %s" % v for v in viol))
     return 0
